@@ -4,6 +4,7 @@ CONSTANTS
   MaxP = 3
   MaxB = 2
   Ty = "Sim3"
+  NumBig = FALSE
   Mut = "none"
 INVARIANT ColumnPartition
 INVARIANT SplitIsPartition
